@@ -1,17 +1,879 @@
-//! Node-level parts shared by several properties (real nodes on NetSim).
-use crate::engine::Ctx;
-use serde_json::Value;
+//! Node-level parts of properties whose main search runs on handshake / table objects
+//! (real nodes on NetSim; scripted trusted peer where a peer must misbehave on purpose).
 
-pub fn c01_node(_ctx: &Ctx) {}
+use crate::engine::{hex, pick_idx, Ctx, Viol};
+use crate::props::lab::{Lab, RState, P, T};
+use crate::sim::{base_config, eth_frame, ipv4_packet, node_id, sim_addr, NetSim, ScriptedPeer};
+use proptest::prelude::*;
+use serde::{Deserialize, Serialize};
+use serde_json::{json, Value};
+use smallvec::smallvec;
+use std::net::SocketAddr;
+use vpncloud::messages::NodeInfo;
+use vpncloud::payload::{Frame, Packet};
+use vpncloud::types::{Mode, Range};
 
-pub fn c02_node(_ctx: &Ctx) {}
+// =====================================================================================
+// C01 node level: forged handshake datagrams against full nodes
+// =====================================================================================
 
-pub fn c03_node(_ctx: &Ctx) {}
+#[derive(Clone, Debug, Serialize, Deserialize)]
+pub struct C01Node {
+    pub state: RState,
+    /// 0 ping, 1 pong, 2 peng
+    pub kind: u8,
+    /// bit to flip (None: truncate to `len`)
+    pub bit: Option<usize>,
+    pub len: usize,
+}
 
-pub fn c05_node(_ctx: &Ctx) {}
+pub fn c01_node_case(ctx: &Ctx, c: &C01Node) -> Vec<Viol> {
+    ctx.eval();
+    let cj = || json!({"kind": "c01-node", "case": c});
+    let mut out = vec![];
+    let mut lab = Lab::build(c.state);
+    let g = lab.genuine(c.kind as usize % 3).clone();
+    if g.len() < 20 {
+        return out;
+    }
+    let mut bytes = g.clone();
+    match c.bit {
+        Some(b) => {
+            let b = 8 + b % ((g.len() - 1) * 8); // keep the marker
+            bytes[b / 8] ^= 1 << (b % 8);
+        }
+        None => bytes.truncate(1 + c.len % (g.len() - 1)),
+    }
+    let src = lab.natural_source();
+    let stranger = lab.stranger;
+    let scrub: Vec<u8> = std::iter::once(0u8).chain(std::iter::repeat(0xa5).take(700)).collect();
+    lab.sim.deliver_to(T, stranger, scrub);
+    let before = lab.observe();
+    lab.sim.deliver_to(T, src, bytes.clone());
+    let after = lab.observe();
+    if let Some((_, p, _)) = lab.sim.panics.first() {
+        out.push(Viol::new(format!("node-{}", p.sig()), format!("forged handshake datagram made the node panic: {}", p.msg), cj()));
+        return out;
+    }
+    if before != after {
+        out.push(Viol::new(
+            "forged-handshake-datagram-changes-node",
+            format!("state {:?}: forged {} changed the node or was answered\n before: {}\n after: {}", c.state, ["ping", "pong", "peng"][c.kind as usize % 3], before, after),
+            cj(),
+        ));
+    }
+    if !lab.sim.take_iface(T).is_empty() {
+        out.push(Viol::new("forged-handshake-datagram-reaches-interface", "interface write".to_string(), cj()));
+    }
+    if let Err(e) = lab.finish_and_probe() {
+        out.push(Viol::new("handshake-in-progress-broken-at-node", format!("state {:?}: {}", c.state, e), cj()));
+    }
+    ctx.nontrivial(&(c.state, c.kind, c.bit, c.len));
+    out
+}
 
-pub fn c11_node(_ctx: &Ctx) {}
+pub fn c01_node(ctx: &Ctx) {
+    let n: u32 = ctx.tier.pick(300, 6_000);
+    let states = [RState::Unknown, RState::PendingInitiator, RState::PendingResponder, RState::EstLinger, RState::EstNoLinger, RState::EstResponder];
+    ctx.proptest(
+        "pt-c01-node",
+        n,
+        || (any::<u16>(), 0u8..3, proptest::option::weighted(0.8, any::<usize>()), any::<usize>()),
+        |(s, kind, bit, len)| c01_node_case(ctx, &C01Node { state: states[pick_idx(*s, states.len())], kind: *kind, bit: *bit, len: *len }),
+    );
+    ctx.subspace("node level: bit flips / truncations of genuine ping/pong/peng injected into full nodes in 6 states", n as u64, false);
+}
 
-pub fn c12_node(_ctx: &Ctx) {}
+// =====================================================================================
+// C02 node level: cleartext never on the wire, byte-identical delivery, tampering dropped
+// =====================================================================================
 
-pub fn replay(_ctx: &Ctx, _case: &Value) {}
+#[derive(Clone, Debug, Serialize, Deserialize)]
+pub struct C02Node {
+    /// per node: bit 0 plain, bit 1 aes128, bit 2 aes256, bit 3 chacha
+    pub algos: [u8; 3],
+    pub seed: u64,
+    pub frames: u8,
+}
+
+fn algo_list(mask: u8) -> Vec<String> {
+    let mut v = vec![];
+    for (i, n) in ["plain", "aes128", "aes256", "chacha20"].iter().enumerate() {
+        if mask & (1 << i) != 0 {
+            v.push(n.to_string());
+        }
+    }
+    v
+}
+
+fn find_window(hay: &[u8], needle: &[u8], w: usize) -> bool {
+    needle.len() >= w && needle.windows(w).any(|x| hay.windows(w).any(|h| h == x))
+}
+
+pub fn c02_node_case(ctx: &Ctx, c: &C02Node) -> Vec<Viol> {
+    ctx.eval();
+    let cj = || json!({"kind": "c02-node", "case": c});
+    let mut out = vec![];
+    let mut sim: NetSim<Frame> = NetSim::new();
+    // distinctive claims (MAC ranges) so that an 8-byte window of their encoding is significant
+    let claims = ["c2:a1:b7:5e:93:00/40", "c2:4d:e9:17:6b:00/40", "c2:f3:08:ac:d5:00/40"];
+    for i in 0..3 {
+        let mut cfg = base_config();
+        cfg.mode = Mode::Switch;
+        cfg.auto_claim = false;
+        cfg.claims = vec![claims[i].to_string()];
+        let mask = c.algos[i] & 0xf;
+        cfg.crypto.algorithms = algo_list(if mask & 0xe == 0 && mask & 1 == 0 { 0xe } else { mask });
+        sim.add_node(&cfg, false);
+    }
+    sim.record = true;
+    let (a1, a2) = (sim.addr(1), sim.addr(2));
+    sim.connect(0, a1);
+    sim.connect(0, a2);
+    sim.connect(1, a2);
+    sim.settle();
+    sim.run(3);
+    // which pairs are connected, and which are plain by agreement?
+    let plain_of = |m: u8| m & 1 != 0;
+    let mut connected = vec![];
+    for i in 0..3 {
+        for j in 0..3 {
+            if i < j && sim.is_connected(i, j) && sim.is_connected(j, i) {
+                let algo = sim.nodes[i].node.verif_peers().iter().find(|p| p.addr == sim.addr(j)).map(|p| p.algorithm).unwrap_or("?");
+                let both_plain = plain_of(c.algos[i]) && plain_of(c.algos[j]);
+                if (algo == "PLAIN") != both_plain {
+                    out.push(Viol::new(
+                        "plain-chosen-without-both-enabling-it",
+                        format!("pair {}-{}: cipher {} but plain enabled by both: {}", i, j, algo, both_plain),
+                        cj(),
+                    ));
+                }
+                connected.push((i, j, algo == "PLAIN"));
+            }
+        }
+    }
+    // frames with high-entropy payloads between connected pairs
+    let mut x = c.seed | 1;
+    let mut payloads: Vec<(usize, usize, Vec<u8>)> = vec![];
+    let handshake_end = sim.wire_log.len();
+    for k in 0..(c.frames as usize % 12 + 1) {
+        if connected.is_empty() {
+            break;
+        }
+        let (i, j, _) = connected[k % connected.len()];
+        let (from, to) = if k % 2 == 0 { (i, j) } else { (j, i) };
+        let len = 20 + (x as usize >> 8) % 600;
+        let body: Vec<u8> = (0..len)
+            .map(|_| {
+                x ^= x << 13;
+                x ^= x >> 7;
+                x ^= x << 17;
+                (x >> 24) as u8
+            })
+            .collect();
+        let mac = |n: usize| [0xc2, [0xa1, 0x4d, 0xf3][n], [0xb7, 0xe9, 0x08][n], [0x5e, 0x17, 0xac][n], [0x93, 0x6b, 0xd5][n], 0x01];
+        let frame = eth_frame(mac(to), mac(from), None, &body);
+        for n in 0..3 {
+            sim.take_iface(n);
+        }
+        sim.put_payload(from, frame.clone());
+        sim.settle();
+        let got = sim.take_iface(to);
+        if got != vec![frame.clone()] {
+            out.push(Viol::new(
+                "payload-not-delivered-byte-identical",
+                format!("frame of {} bytes from node {} to node {}: receiver wrote {} frames (identical: {})", frame.len(), from, to, got.len(), got.first() == Some(&frame)),
+                cj(),
+            ));
+        }
+        payloads.push((from, to, frame));
+    }
+    sim.run(2);
+    // wire search: no 8-byte window of a payload on encrypted connections
+    for d in &sim.wire_log[handshake_end..] {
+        let (s, t) = (sim.index.get(&d.src).copied(), sim.index.get(&d.dst).copied());
+        let plain_conn = match (s, t) {
+            (Some(s), Some(t)) => connected.iter().any(|(i, j, p)| *p && ((*i == s && *j == t) || (*i == t && *j == s))),
+            _ => false,
+        };
+        if plain_conn || d.data.first() == Some(&0xff) {
+            continue;
+        }
+        for (from, to, f) in &payloads {
+            if find_window(&d.data, &f[12..], 8) {
+                out.push(Viol::new(
+                    "payload-cleartext-on-wire",
+                    format!("8 bytes of the frame {}->{} appear in a datagram {}->{} on an encrypted connection", from, to, d.src, d.dst),
+                    cj(),
+                ));
+            }
+        }
+    }
+    // claims and node information: their encodings must not appear in any post-handshake datagram of encrypted pairs
+    for d in &sim.wire_log {
+        if d.data.first() == Some(&0xff) {
+            // handshake messages carry node info only sealed (pong/peng payload) unless plain
+        }
+        let (s, t) = (sim.index.get(&d.src).copied(), sim.index.get(&d.dst).copied());
+        let plain_conn = match (s, t) {
+            (Some(s), Some(t)) => plain_of(c.algos[s]) && plain_of(c.algos[t]),
+            _ => false,
+        };
+        if plain_conn {
+            continue;
+        }
+        for cl in claims {
+            let r: Range = cl.parse().unwrap();
+            let enc = &r.base.data[..5];
+            let nid_hit = d.data.windows(5).any(|w| w == enc);
+            if nid_hit {
+                out.push(Viol::new(
+                    "claim-cleartext-on-wire",
+                    format!("the encoding of claim {} appears in a datagram {}->{} although that pair did not agree on plain", cl, d.src, d.dst),
+                    cj(),
+                ));
+            }
+        }
+    }
+    // tampered copies of the last data datagram must not reach any interface
+    if let Some(d) = sim.wire_log.iter().rev().find(|d| d.data.len() > 60 && d.data.first() != Some(&0xff)).cloned() {
+        let enc_pair = match (sim.index.get(&d.src), sim.index.get(&d.dst)) {
+            (Some(s), Some(t)) => !(plain_of(c.algos[*s]) && plain_of(c.algos[*t])),
+            _ => false,
+        };
+        if enc_pair {
+            let t = sim.index[&d.dst];
+            for bit in [0usize, 2, 9, 70, d.data.len() * 8 - 1] {
+                let mut b = d.data.clone();
+                b[bit / 8] ^= 1 << (bit % 8);
+                for n in 0..3 {
+                    sim.take_iface(n);
+                }
+                sim.deliver_to(t, d.src, b);
+                sim.settle();
+                if (0..3).any(|n| !sim.take_iface(n).is_empty()) {
+                    out.push(Viol::new("altered-datagram-reaches-interface", format!("bit {} of a data datagram flipped: still written to an interface", bit), cj()));
+                }
+            }
+            // reflection and cross-connection injection
+            let s = sim.index[&d.src];
+            for (node, from) in [(s, d.dst), ((0..3).find(|n| *n != s && *n != t).unwrap(), d.src)] {
+                // the connection the datagram is injected into must itself be an encrypted one: in plain mode
+                // nothing is authenticated (DESIGN.md section 6)
+                let from_idx = sim.index[&from];
+                if plain_of(c.algos[node]) && plain_of(c.algos[from_idx]) {
+                    continue;
+                }
+                sim.deliver_to(node, from, d.data.clone());
+                sim.settle();
+                if (0..3).any(|n| !sim.take_iface(n).is_empty()) {
+                    out.push(Viol::new("reflected-or-cross-injected-datagram-reaches-interface", format!("datagram {}->{} injected at node {}", d.src, d.dst, node), cj()));
+                }
+            }
+        }
+    }
+    if let Some((n, p, _)) = sim.panics.first() {
+        out.push(Viol::new(format!("node-{}", p.sig()), format!("node {} panicked: {}", n, p.msg), cj()));
+    }
+    ctx.nontrivial(&(c.algos, c.seed, c.frames));
+    ctx.class(&format!("mesh:connected-pairs={}", connected.len()));
+    out
+}
+
+pub fn c02_node(ctx: &Ctx) {
+    let n: u32 = ctx.tier.pick(60, 1_500);
+    ctx.proptest("pt-c02-node", n, || (any::<[u8; 3]>(), any::<u64>(), any::<u8>()), |(algos, seed, frames)| {
+        let c = C02Node { algos: [algos[0] & 0xf, algos[1] & 0xf, algos[2] & 0xf], seed: *seed, frames: *frames };
+        let v = c02_node_case(ctx, &c);
+        ctx.sample("mesh", || serde_json::to_value(&c).unwrap());
+        v
+    });
+    ctx.subspace("node level: 3-node meshes with random per-node cipher lists, frames, wire capture search, tampering", n as u64, false);
+}
+
+// =====================================================================================
+// C03 node level: replay of captured data datagrams k housekeeping rounds later
+// =====================================================================================
+
+pub fn c03_node_case(ctx: &Ctx, k: u32, newer_between: bool) -> Vec<Viol> {
+    ctx.eval();
+    let case = json!({"kind": "c03-node", "k": k, "newer_between": newer_between});
+    let mut out = vec![];
+    let mut lab = Lab::build(RState::EstResponder);
+    let f = |n: u8| eth_frame([2, 0, 0, 0, 0, 1], [2, 0, 0, 0, 0, 2], None, &[n; 40]);
+    lab.sim.take_iface(T);
+    let before = lab.sim.wire_log.len();
+    lab.sim.put_payload(P, f(1));
+    let at = lab.sim.addr(T);
+    let captured = lab.sim.wire_log[before..].iter().find(|d| d.dst == at).cloned();
+    lab.sim.settle();
+    let first = lab.sim.take_iface(T);
+    if first != vec![f(1)] {
+        out.push(Viol::new("c03-node-setup", "first delivery failed".to_string(), case));
+        return out;
+    }
+    let d = match captured {
+        Some(d) => d,
+        None => return out,
+    };
+    for _ in 0..k {
+        lab.sim.tick();
+        if newer_between {
+            lab.sim.put_payload(P, f(9));
+            lab.sim.settle();
+        }
+    }
+    lab.sim.take_iface(T);
+    lab.sim.deliver_to(T, d.src, d.data.clone());
+    let again = lab.sim.take_iface(T);
+    // history-based expectation: accepted iff fewer than two ticks passed since it (the newest then) was accepted
+    let expect_accept = k < 2;
+    if again.is_empty() == expect_accept {
+        out.push(Viol::new(
+            if again.is_empty() { "in-window-datagram-rejected-at-node" } else { "replay-delivered-outside-window-at-node" },
+            format!("data datagram replayed {} housekeeping rounds after first delivery: written {} times (expected {})", k, again.len(), if expect_accept { 1 } else { 0 }),
+            case,
+        ));
+    }
+    ctx.nontrivial(&("c03n", k, newer_between));
+    out
+}
+
+pub fn c03_node(ctx: &Ctx) {
+    for k in 0..=5 {
+        for nb in [false, true] {
+            let v = c03_node_case(ctx, k, nb);
+            ctx.report(v);
+        }
+    }
+    ctx.subspace("node level: data datagram replayed k = 0..=5 housekeeping rounds after first delivery (with/without newer traffic)", 12, true);
+}
+
+// =====================================================================================
+// C05 node level: adversarial network, then reliable phase
+// =====================================================================================
+
+#[derive(Clone, Debug, Serialize, Deserialize)]
+pub struct C05Node {
+    pub nodes: u8,
+    /// per datagram fate selector (cycled): 0..=255
+    pub fates: Vec<u8>,
+    pub adversarial_seconds: u16,
+    /// who dials whom: bit k of edges[i] = node i is configured with peer k
+    pub edges: [u8; 3],
+}
+
+pub fn c05_node_case(ctx: &Ctx, c: &C05Node) -> Vec<Viol> {
+    ctx.eval();
+    let cj = || json!({"kind": "c05-node", "case": c});
+    let mut out = vec![];
+    let n = c.nodes.clamp(2, 3) as usize;
+    let mut sim: NetSim<Frame> = NetSim::new();
+    for _ in 0..n {
+        let mut cfg = base_config();
+        cfg.mode = Mode::Switch;
+        cfg.auto_claim = false;
+        sim.add_node(&cfg, false);
+    }
+    // adversary: per-datagram fate from the generated list
+    let fates = if c.fates.is_empty() { vec![0u8] } else { c.fates.clone() };
+    let counter = std::cell::Cell::new(0usize);
+    let active = std::rc::Rc::new(std::cell::Cell::new(true));
+    let act2 = active.clone();
+    let faults = std::rc::Rc::new(std::cell::Cell::new(0u32));
+    let f2 = faults.clone();
+    sim.policy = Some(Box::new(move |_d| {
+        if !act2.get() {
+            return vec![0];
+        }
+        let k = counter.get();
+        counter.set(k + 1);
+        let f = fates[k % fates.len()];
+        match f % 8 {
+            0 | 1 | 2 => vec![0],
+            3 => {
+                f2.set(f2.get() + 1);
+                vec![]
+            }
+            4 => {
+                f2.set(f2.get() + 1);
+                vec![0, 0]
+            }
+            5 => {
+                f2.set(f2.get() + 1);
+                vec![(f as i64 / 8) % 90 + 1]
+            }
+            6 => {
+                f2.set(f2.get() + 1);
+                vec![0, (f as i64 / 8) % 90 + 1]
+            }
+            _ => {
+                f2.set(f2.get() + 1);
+                vec![1]
+            }
+        }
+    }));
+    // configured peers (connect + add_reconnect_peer, exactly as run() does); the configured graph must be connected
+    let mut configured = vec![];
+    for i in 0..n {
+        for j in 0..n {
+            if i != j && (c.edges[i] & (1 << j) != 0 || (i == 0 && j == 1) || (n == 3 && i == 1 && j == 2)) {
+                configured.push((i, j));
+            }
+        }
+    }
+    for (i, j) in &configured {
+        let a = sim.addr(*j);
+        sim.configure_peer(*i, a);
+    }
+    sim.settle();
+    sim.run((c.adversarial_seconds % 200) as i64);
+    // reliable phase: the recovery bound counts from the moment the last delayed datagram has been delivered
+    active.set(false);
+    let last_delayed = sim.delayed.iter().map(|d| d.deliver_at).max().unwrap_or(sim.now).max(sim.now);
+    let wait = last_delayed - sim.now;
+    sim.run(wait);
+    let bound = 300 + 120 + 10; // peer timeout + handshake retry horizon + slack
+    let mut ok_at = None;
+    for s in 0..bound {
+        sim.tick();
+        if configured.iter().all(|(i, j)| sim.is_connected(*i, *j) && sim.is_connected(*j, *i)) {
+            ok_at = Some(s);
+            break;
+        }
+    }
+    if let Some((i, p, ctxt)) = sim.panics.first() {
+        out.push(Viol::new(format!("node-{}", p.sig()), format!("node {} panicked under the adversarial network: {} at {} ({})", i, p.msg, p.loc, ctxt), cj()));
+        return out;
+    }
+    match ok_at {
+        None => out.push(Viol::new(
+            "no-recovery-within-peer-timeout-plus-retry-horizon",
+            format!("{} s after delivery became reliable the configured pairs {:?} are not all mutually connected", bound, configured),
+            cj(),
+        )),
+        Some(_) => {
+            // payload in both directions of every configured pair (a few seconds for the replay windows / rotation to settle)
+            sim.run(3);
+            for (i, j) in &configured {
+                for (a, b) in [(*i, *j), (*j, *i)] {
+                    for x in 0..n {
+                        sim.take_iface(x);
+                    }
+                    let f = eth_frame([2, 0, 0, 0, 1, b as u8], [2, 0, 0, 0, 1, a as u8], None, format!("probe {}->{}", a, b).as_bytes());
+                    sim.put_payload(a, f.clone());
+                    sim.settle();
+                    if sim.take_iface(b) != vec![f] {
+                        out.push(Viol::new("connected-but-payload-does-not-cross", format!("probe frame {}->{} not delivered exactly once after recovery", a, b), cj()));
+                    }
+                }
+            }
+        }
+    }
+    if faults.get() > 0 {
+        ctx.nontrivial(&format!("{:?}", c));
+    }
+    ctx.class(&format!("adversarial:faults>={}", (faults.get() / 10) * 10));
+    out
+}
+
+pub fn c05_node(ctx: &Ctx) {
+    let n: u32 = ctx.tier.pick(150, 3_000);
+    ctx.proptest(
+        "pt-c05-node",
+        n,
+        || (2u8..=3, proptest::collection::vec(any::<u8>(), 1..200), any::<u16>(), any::<[u8; 3]>()),
+        |(nodes, fates, secs, edges)| {
+            let c = C05Node { nodes: *nodes, fates: fates.clone(), adversarial_seconds: *secs, edges: *edges };
+            let v = c05_node_case(ctx, &c);
+            if fates.len() < 8 {
+                ctx.sample("adversarial-network", || serde_json::to_value(&c).unwrap());
+            }
+            v
+        },
+    );
+    ctx.subspace("node level: 2-3 nodes with configured peers, per-datagram drop/duplicate/delay<=90 s/reorder for <=200 s, then reliable", n as u64, false);
+}
+
+// =====================================================================================
+// C11 node level: router mode, overlapping claims, dropped-payload counter
+// =====================================================================================
+
+#[derive(Clone, Debug, Serialize, Deserialize)]
+pub struct C11Node {
+    /// destination addresses (last three octets) of packets read at node 0
+    pub dsts: Vec<[u8; 3]>,
+}
+
+pub fn c11_node_case(ctx: &Ctx, c: &C11Node) -> Vec<Viol> {
+    ctx.eval();
+    let cj = || json!({"kind": "c11-node", "case": c});
+    let mut out = vec![];
+    let mut sim: NetSim<Packet> = NetSim::new();
+    let claims: [&[&str]; 3] = [&["10.9.0.0/16"], &["10.0.0.0/8", "10.1.2.0/24"], &["10.1.0.0/16", "10.1.2.3/32"]];
+    for cl in claims.iter() {
+        let mut cfg = base_config();
+        cfg.mode = Mode::Router;
+        cfg.auto_claim = false;
+        cfg.claims = cl.iter().map(|s| s.to_string()).collect();
+        sim.add_node(&cfg, false);
+    }
+    let (a1, a2) = (sim.addr(1), sim.addr(2));
+    sim.connect(0, a1);
+    sim.connect(0, a2);
+    sim.connect(1, a2);
+    sim.settle();
+    sim.run(2);
+    if !sim.all_connected() {
+        out.push(Viol::new("c11-node-setup", "mesh not connected".to_string(), cj()));
+        return out;
+    }
+    sim.record = true;
+    let ranges: Vec<(usize, Range)> = claims.iter().enumerate().flat_map(|(i, l)| l.iter().map(move |s| (i, s.parse::<Range>().unwrap()))).collect();
+    let mut dropped_expect = (0u64, 0usize);
+    for d in &c.dsts {
+        let dst = [10, d[0], d[1], d[2]];
+        let p = ipv4_packet([10, 9, 0, 1], dst, b"c11-node-probe");
+        let before = sim.wire_log.len();
+        sim.put_payload(0, p.clone());
+        let sent: Vec<SocketAddr> = sim.wire_log[before..].iter().map(|x| x.dst).collect();
+        sim.settle();
+        for n in 0..3 {
+            sim.take_iface(n);
+        }
+        // reference: longest prefix among the claims of the *other* nodes
+        let best = ranges
+            .iter()
+            .filter(|(i, r)| *i != 0 && crate::props::c11::ref_matches(&r.base.data[..4], r.prefix_len, &dst))
+            .max_by_key(|(_, r)| r.prefix_len);
+        match best {
+            Some((owner, r)) => {
+                if sent != vec![sim.addr(*owner)] {
+                    out.push(Viol::new(
+                        "packet-not-sent-to-most-specific-claim",
+                        format!("packet to {:?}: sent to {:?}, the most specific claim {} belongs to node {}", dst, sent, r, owner),
+                        cj(),
+                    ));
+                }
+            }
+            None => {
+                dropped_expect.0 += p.len() as u64;
+                dropped_expect.1 += 1;
+                if !sent.is_empty() {
+                    out.push(Viol::new("unroutable-packet-sent", format!("packet to {:?} has no claim but was sent to {:?}", dst, sent), cj()));
+                }
+            }
+        }
+    }
+    let got = sim.nodes[0].node.verif_dropped_payload();
+    if got != dropped_expect {
+        out.push(Viol::new(
+            "dropped-payload-counter-wrong",
+            format!("dropped payload counter (bytes, packets) = {:?}, expected {:?}", got, dropped_expect),
+            cj(),
+        ));
+    }
+    ctx.nontrivial(&c.dsts);
+    out
+}
+
+pub fn c11_node(ctx: &Ctx) {
+    let n: u32 = ctx.tier.pick(200, 4_000);
+    let pool: Vec<[u8; 3]> = vec![[1, 2, 3], [1, 2, 4], [1, 3, 1], [0, 0, 1], [2, 0, 1], [9, 0, 2], [1, 2, 0], [255, 255, 255]];
+    ctx.proptest(
+        "pt-c11-node",
+        n,
+        || proptest::collection::vec(prop_oneof![3 => (0usize..8).prop_map(|i| i as u16 + 1000), 1 => any::<u16>()], 1..12),
+        |sel| {
+            let dsts: Vec<[u8; 3]> = sel.iter().map(|s| if *s >= 1000 && (*s as usize) < 1008 { pool[*s as usize - 1000] } else { [(*s >> 8) as u8 % 4, (*s & 0xff) as u8 % 4, (*s % 7) as u8] }).collect();
+            c11_node_case(ctx, &C11Node { dsts })
+        },
+    );
+    ctx.subspace("node level: router mode, 3 nodes with nested claims, packets to every nesting level; dropped-payload counter", n as u64, false);
+    // destinations outside every claim (11.x) are produced by the unknown-destination pool below
+    let v = c11_node_case(ctx, &C11Node { dsts: vec![[1, 2, 3], [1, 2, 9], [1, 9, 9], [9, 9, 9]] });
+    ctx.report(v);
+    // one run through the statistics file itself (what a user reads)
+    let v = c11_stats_file(ctx);
+    ctx.report(v);
+}
+
+fn c11_stats_file(ctx: &Ctx) -> Vec<Viol> {
+    ctx.eval();
+    let mut out = vec![];
+    let path = std::env::temp_dir().join(format!("vverif-stats-{}-{:?}", std::process::id(), std::thread::current().id()));
+    let file = match std::fs::OpenOptions::new().create(true).truncate(true).read(true).write(true).open(&path) {
+        Ok(f) => f,
+        Err(_) => return out,
+    };
+    let mut cfg = base_config();
+    cfg.mode = Mode::Router;
+    cfg.auto_claim = false;
+    cfg.listen = sim_addr(0).to_string();
+    vpncloud::util::MockTimeSource::set_time(crate::sim::T0);
+    let mut node: crate::sim::Node<Packet> = crate::sim::Node::new(&cfg, vpncloud::net::MockSocket::new(sim_addr(0)), vpncloud::device::MockDevice::new(), None, Some(file));
+    let mut total = 0usize;
+    for k in 0..5u8 {
+        let p = ipv4_packet([10, 9, 0, 1], [10, 77, 0, k], &vec![k; 10 + k as usize]);
+        total += p.len();
+        node.verif_device().put_inbound(p);
+        let mut buf = crate::sim::new_buf();
+        node.verif_device_event(&mut buf);
+    }
+    vpncloud::util::MockTimeSource::set_time(crate::sim::T0 + 100);
+    let _ = node.verif_housekeep();
+    let text = std::fs::read_to_string(&path).unwrap_or_default();
+    std::fs::remove_file(&path).ok();
+    let want = format!("bytes: {}, packets: 5", total);
+    if !text.lines().any(|l| l.contains("dropped_payload") && l.contains(&want)) {
+        out.push(Viol::new(
+            "dropped-payload-not-in-statistics-file",
+            format!("statistics file does not report {:?} for dropped payload: {:?}", want, text.lines().filter(|l| l.contains("dropped")).collect::<Vec<_>>()),
+            json!({"kind": "c11-stats"}),
+        ));
+    }
+    out
+}
+
+// =====================================================================================
+// C12 node level: scripted peer restarts with other claims, goes silent, closes, fails a 2nd handshake
+// =====================================================================================
+
+#[derive(Clone, Copy, Debug, Serialize, Deserialize, PartialEq)]
+pub enum PeerAct {
+    /// re-announce this subset of the 4-claim universe
+    Announce(u8),
+    /// the peer restarts on the same address (new session) announcing this subset, handshake completes
+    Restart(u8),
+    /// a new handshake starts from the peer's address (ping only), then nothing more
+    HalfRestart,
+    /// nothing for n seconds
+    Silent(u16),
+    Close,
+    /// packets towards each claim of the universe are read from the interface
+    Traffic,
+}
+
+#[derive(Clone, Debug, Serialize, Deserialize)]
+pub struct C12Node {
+    pub acts: Vec<PeerAct>,
+}
+
+fn c12_universe() -> Vec<Range> {
+    ["10.1.0.0/16", "10.2.0.0/16", "10.1.2.0/24", "10.3.0.0/16"].iter().map(|s| s.parse().unwrap()).collect()
+}
+
+fn c12_info(id: u8, subset: u8) -> NodeInfo {
+    let uni = c12_universe();
+    NodeInfo {
+        node_id: node_id(id),
+        peers: smallvec![],
+        claims: (0..4).filter(|i| subset & (1 << i) != 0).map(|i| uni[i]).collect(),
+        peer_timeout: Some(300),
+        addrs: smallvec![],
+    }
+}
+
+pub fn c12_node_case(ctx: &Ctx, c: &C12Node) -> Vec<Viol> {
+    ctx.eval();
+    let cj = || json!({"kind": "c12-node", "case": c});
+    let mut out = vec![];
+    let uni = c12_universe();
+    let mut sim: NetSim<Packet> = NetSim::new();
+    let mut cfg = base_config();
+    cfg.mode = Mode::Router;
+    cfg.auto_claim = false;
+    cfg.claims = vec!["10.9.0.0/16".into()];
+    sim.add_node(&cfg, false);
+    let s_addr: SocketAddr = "[fd00::77]:7777".parse().unwrap();
+    let mut session = 0u8;
+    let mut peer = ScriptedPeer::new(s_addr, "test123", c12_info(50, 0b0011));
+    if !peer.connect(&mut sim, 0) {
+        out.push(Viol::new("c12-node-setup", "scripted peer could not connect".to_string(), cj()));
+        return out;
+    }
+    // model
+    let mut announced: Option<u8> = Some(0b0011);
+    let mut last_refresh = sim.now;
+    let mut shrink_or_leave = false;
+    let mut check = |sim: &mut NetSim<Packet>, announced: Option<u8>, last_refresh: i64, step: &str, out: &mut Vec<Viol>| {
+        let is_peer = sim.nodes[0].node.verif_peers().iter().any(|p| p.addr == s_addr);
+        let (claims, cache) = sim.nodes[0].node.verif_table().verif_dump();
+        let have: Vec<usize> = (0..4).filter(|i| claims.iter().any(|(p, r, _)| *p == s_addr && *r == uni[*i])).collect();
+        let age = sim.now - last_refresh;
+        if !is_peer {
+            if !have.is_empty() || cache.iter().any(|(_, p, _)| *p == s_addr) {
+                out.push(Viol::new(
+                    "routes-point-at-removed-peer",
+                    format!("{}: {} is no longer a peer but the table still holds its claims {:?} / cached decisions", step, s_addr, have.iter().map(|i| uni[*i].to_string()).collect::<Vec<_>>()),
+                    cj(),
+                ));
+            }
+        } else if let Some(a) = announced {
+            let want: Vec<usize> = (0..4).filter(|i| a & (1 << i) != 0).collect();
+            let ok = if age < 300 { have == want } else if age == 300 { have == want || have.is_empty() } else { have.is_empty() };
+            if !ok {
+                out.push(Viol::new(
+                    "claims-differ-from-last-announcement-at-node",
+                    format!("{}: peer announced {:?}, table attributes {:?} to it (age {} s)", step, want, have, age),
+                    cj(),
+                ));
+            }
+        }
+    };
+    for (i, a) in c.acts.iter().enumerate() {
+        let step = format!("step {} {:?}", i, a);
+        match *a {
+            PeerAct::Announce(s) => {
+                if peer.connected && sim.nodes[0].node.verif_peers().iter().any(|p| p.addr == s_addr) {
+                    let info = c12_info(50 + session, s & 0xf);
+                    peer.send_node_info(&mut sim, 0, &info);
+                    if let Some(old) = announced {
+                        if old & !(s & 0xf) != 0 {
+                            shrink_or_leave = true;
+                        }
+                    }
+                    announced = Some(s & 0xf);
+                    last_refresh = sim.now;
+                }
+            }
+            PeerAct::Restart(s) => {
+                session += 1;
+                peer = ScriptedPeer::new(s_addr, "test123", c12_info(50 + session, s & 0xf));
+                if peer.connect(&mut sim, 0) {
+                    if let Some(old) = announced {
+                        if old & !(s & 0xf) != 0 {
+                            shrink_or_leave = true;
+                        }
+                    }
+                    announced = Some(s & 0xf);
+                    last_refresh = sim.now;
+                }
+            }
+            PeerAct::HalfRestart => {
+                session += 1;
+                let mut ghost = ScriptedPeer::new(s_addr, "test123", c12_info(50 + session, 0b1111));
+                let mut buf = crate::sim::new_buf();
+                if ghost.crypto.initialize(&mut buf).is_ok() {
+                    sim.deliver_to(0, s_addr, buf.message().to_vec());
+                    sim.settle();
+                    sim.stray.clear();
+                }
+                shrink_or_leave = true;
+            }
+            PeerAct::Silent(n) => {
+                for _ in 0..(n % 400) {
+                    sim.tick();
+                    // the live session keeps its window/rotation clock but says nothing
+                    sim.stray.clear();
+                }
+                if sim.now - last_refresh > 300 {
+                    announced = None;
+                    shrink_or_leave = true;
+                }
+            }
+            PeerAct::Close => {
+                if peer.connected {
+                    peer.send(&mut sim, 0, vpncloud::messages::MESSAGE_TYPE_CLOSE, &[]);
+                    if !sim.nodes[0].node.verif_peers().iter().any(|p| p.addr == s_addr) {
+                        announced = None;
+                        shrink_or_leave = true;
+                    }
+                }
+            }
+            PeerAct::Traffic => {
+                for k in 1..=3u8 {
+                    for third in [0u8, 2] {
+                        // handle_interface_data's error is only logged by the event handler; call it directly to see it
+                        let pkt = ipv4_packet([10, 9, 0, 1], [10, k, third, 7], b"c12");
+                        let mut data = crate::sim::new_buf();
+                        data.set_length(pkt.len());
+                        data.message_mut().copy_from_slice(&pkt);
+                        let r = crate::sim::catch(|| sim.nodes[0].node.handle_interface_data(&mut data));
+                        sim.flush(0);
+                        sim.settle();
+                        sim.stray.clear();
+                        match r {
+                            Err(p) => out.push(Viol::new(format!("node-{}", p.sig()), format!("{}: panic {}", step, p.msg), cj())),
+                            Ok(Err(e)) => {
+                                if e.to_string().contains("not a peer") {
+                                    out.push(Viol::new(
+                                        "non-peer-selected-as-next-hop",
+                                        format!("{}: a packet to 10.{}.{}.7 was routed to a node that is not a peer: {}", step, k, third, e),
+                                        cj(),
+                                    ));
+                                }
+                            }
+                            Ok(Ok(())) => {}
+                        }
+                    }
+                }
+            }
+        }
+        check(&mut sim, announced, last_refresh, &step, &mut out);
+        if let Some((_, p, ctxt)) = sim.panics.first() {
+            out.push(Viol::new(format!("node-{}", p.sig()), format!("{}: node panicked: {} ({})", step, p.msg, ctxt), cj()));
+        }
+        if !out.is_empty() {
+            return out;
+        }
+        // after a timeout/close the node may re-dial; the ghost never answers
+        if !sim.nodes[0].node.verif_peers().iter().any(|p| p.addr == s_addr) {
+            announced = None;
+            peer.connected = false;
+        }
+    }
+    if shrink_or_leave {
+        ctx.nontrivial(&format!("{:?}", c.acts));
+    }
+    out
+}
+
+fn peer_act_strategy() -> impl Strategy<Value = PeerAct> {
+    prop_oneof![
+        4 => (0u8..16).prop_map(PeerAct::Announce),
+        2 => (0u8..16).prop_map(PeerAct::Restart),
+        2 => Just(PeerAct::HalfRestart),
+        3 => prop_oneof![Just(1u16), Just(60), Just(121), Just(125), Just(299), Just(300), Just(301), Just(302), 0u16..400].prop_map(PeerAct::Silent),
+        1 => Just(PeerAct::Close),
+        4 => Just(PeerAct::Traffic),
+    ]
+}
+
+pub fn c12_node(ctx: &Ctx) {
+    // directed scenarios first
+    let scenarios: Vec<Vec<PeerAct>> = vec![
+        vec![PeerAct::Traffic, PeerAct::Announce(0b0001), PeerAct::Traffic],
+        vec![PeerAct::Traffic, PeerAct::Restart(0b0100), PeerAct::Traffic],
+        vec![PeerAct::Traffic, PeerAct::Close, PeerAct::Traffic],
+        vec![PeerAct::Traffic, PeerAct::Silent(302), PeerAct::Traffic],
+        vec![PeerAct::Traffic, PeerAct::HalfRestart, PeerAct::Silent(125), PeerAct::Traffic, PeerAct::Silent(5), PeerAct::Traffic],
+        vec![PeerAct::HalfRestart, PeerAct::Traffic, PeerAct::Silent(121), PeerAct::Traffic],
+    ];
+    for s in &scenarios {
+        let v = c12_node_case(ctx, &C12Node { acts: s.clone() });
+        ctx.report(v);
+    }
+    ctx.sample("scripted-peer-scenario", || json!(format!("{:?}", scenarios[4])));
+    ctx.subspace("node level: 6 directed scripted-peer scenarios (shrink, restart, close, silence, failing second handshake)", scenarios.len() as u64, true);
+    let n: u32 = ctx.tier.pick(300, 6_000);
+    ctx.proptest("pt-c12-node", n, || proptest::collection::vec(peer_act_strategy(), 1..10), |acts| c12_node_case(ctx, &C12Node { acts: acts.clone() }));
+    ctx.subspace("node level: proptest scripted-peer histories (announce / restart / half restart / silence / close / traffic)", n as u64, false);
+}
+
+// =====================================================================================
+
+pub fn replay(ctx: &Ctx, case: &Value) {
+    let v = match case["kind"].as_str() {
+        Some("c01-node") => serde_json::from_value::<C01Node>(case["case"].clone()).map(|c| c01_node_case(ctx, &c)).unwrap_or_default(),
+        Some("c02-node") => serde_json::from_value::<C02Node>(case["case"].clone()).map(|c| c02_node_case(ctx, &c)).unwrap_or_default(),
+        Some("c03-node") => c03_node_case(ctx, case["k"].as_u64().unwrap_or(0) as u32, case["newer_between"].as_bool().unwrap_or(false)),
+        Some("c05-node") => serde_json::from_value::<C05Node>(case["case"].clone()).map(|c| c05_node_case(ctx, &c)).unwrap_or_default(),
+        Some("c11-node") => serde_json::from_value::<C11Node>(case["case"].clone()).map(|c| c11_node_case(ctx, &c)).unwrap_or_default(),
+        Some("c11-stats") => c11_stats_file(ctx),
+        Some("c12-node") => serde_json::from_value::<C12Node>(case["case"].clone()).map(|c| c12_node_case(ctx, &c)).unwrap_or_default(),
+        _ => vec![],
+    };
+    ctx.report(v);
+    let _ = hex(&[]);
+}
